@@ -441,6 +441,7 @@ theorem sock_move {cfg : Cfg} {K : Kind → Bool} (hK : K .connPerm = false) {a 
     b.sock = a.sock := by
   cases m
   case conn f h hr hp hj hpol => rw [hK] at hp; cases hp
+  case connFail f h hr hp => rw [hK] at hp; cases hp
   all_goals rfl
 
 theorem sock_moves {cfg : Cfg} {K : Kind → Bool} (hK : K .connPerm = false) {a b : Abs} (m : Moves cfg K a b) :
@@ -560,6 +561,7 @@ theorem joinInv_move {cfg : Cfg} {K : Kind → Bool} (hK : K .side = false) {a b
     · rw [hq] at hc; cases hc
     · rw [hq] at hr; cases hr
   case disc => exact ⟨fun _ _ hc => (by simp at hc), h2⟩
+  case connFail _ _ _ _ => exact ⟨fun _ _ hc => (by simp at hc), h2⟩
   case reset _ => exact ⟨fun _ hq => (by simp at hq), connectKinds_noSide cfg⟩
   case conn f hh hr hp hj hpol => exact ⟨fun _ hq => (by simp only at hq; rw [hj] at hq; cases hq), h2⟩
   all_goals exact ⟨h1, h2⟩
@@ -618,6 +620,7 @@ theorem stsInv_move {cfg : Cfg} {K : Kind → Bool} {a b : Abs} (h : StsInv cfg 
   case store hs ps _ => exact fun _ _ => hs
   case expire host => exact fun hc hp => h hc (dictGet_dictDel_some _ _ _ hp)
   case disc => exact fun hc => by simp at hc
+  case connFail _ _ _ _ => exact fun hc => by simp at hc
   case conn f hh hr hp hj hpol =>
     intro _ hp'
     rcases hpol hp' with hf | hs
